@@ -109,6 +109,9 @@ func discharge(o *Obligation, decls []string, dir string, secs int) {
 	ctx, cancel := context.WithCancel(context.Background())
 	defer cancel()
 	ch := make(chan solveOut, len(solvers))
+	if o.Cover && secs > 3 {
+		secs = 3 // vacuity checks are sanity checks: short limit
+	}
 	for _, sp := range solvers {
 		go func(sp solverSpec) { ch <- runSolver(ctx, sp, file, secs) }(sp)
 	}
